@@ -183,9 +183,11 @@ func (m *Morass) Push(e LessInterface) error {
 
 	if len(m.chunk) == m.chunkSize {
 		m.writable <- m.chunk
+		verifStep("push.handoff")
 		m.writers.Add(1)
 		go m.write()
 		m.chunk = <-m.pool
+		verifStep("push.gotbuf")
 		if err := m.err(); err != nil {
 			return err
 		}
@@ -203,7 +205,9 @@ func (m *Morass) Push(e LessInterface) error {
 
 func (m *Morass) write() {
 	writing := <-m.writable
+	verifStep("write.recv")
 	defer func() {
+		verifStep("write.return")
 		m.pool <- writing[:0]
 		m.writers.Done()
 	}()
@@ -218,19 +222,25 @@ func (m *Morass) write() {
 
 	enc := gob.NewEncoder(tf)
 	dec := gob.NewDecoder(tf)
+	if w, r := verifWrapFile(tf); w != nil {
+		enc, dec = gob.NewEncoder(w), gob.NewDecoder(r)
+	}
 	f := &file{head: nil, file: tf, encoder: enc, decoder: dec}
 
 	m.filesLock.Lock()
 	m.files = append(m.files, f)
 	m.filesLock.Unlock()
+	verifStep("write.register")
 
 	for _, e := range writing {
+		verifStep("write.encode")
 		if err := enc.Encode(&e); err != nil {
 			m.setErr(err)
 			return
 		}
 	}
 
+	verifStep("write.sync")
 	m.setErr(tf.Sync())
 }
 
@@ -259,6 +269,7 @@ func (m *Morass) Len() int64 { return m.len }
 // Finalise is called to indicate that the last element has been pushed on to the Morass
 // and write out final data.
 func (m *Morass) Finalise() error {
+	verifStep("finalise.enter")
 	// All chunks handed to background writers must be on disk and
 	// their files registered before the files are read back.
 	m.writers.Wait()
@@ -275,6 +286,7 @@ func (m *Morass) Finalise() error {
 				m.writable <- m.chunk
 				m.chunk = nil
 				m.writers.Add(1)
+				verifStep("finalise.lastwrite")
 				m.write()
 				if err := m.err(); err != nil {
 					return err
@@ -288,6 +300,7 @@ func (m *Morass) Finalise() error {
 
 	if !m.fast {
 		for _, f := range m.files {
+			verifStep("finalise.seek")
 			_, err := f.file.Seek(0, 0)
 			if err != nil {
 				return err
@@ -300,6 +313,7 @@ func (m *Morass) Finalise() error {
 
 		heap.Init(&m.files)
 	}
+	verifStep("finalise.done")
 
 	return nil
 }
